@@ -247,7 +247,10 @@ def world_focus_conc():
     two callers between the two phases of Handle*Proofs conflict, complete a quorum together, or race a round change."""
     w = base_world()
     V = [vote("precommit", 1, 0, {"A1": ok(1, 2)}), vote("precommit", 1, 0, {"A1": ok(2, 3)}), vote("precommit", 1, 0, {"nil": ok(1, 2, 3)}),
-         vote("precommit", 1, 1, {"nil": ok(1, 2)}), vote("precommit", 1, 0, {"A1": S([E(3), E(4, "flip")])})]
+         vote("precommit", 1, 1, {"nil": ok(1, 2)}), vote("precommit", 1, 0, {"A1": S([E(3), E(4, "flip")])}),
+         # a vote for a FUTURE round: parked between the lookup (answer: future) and the add request while another
+         # caller's votes move the voting round there or commit the height (Kernel.addFuture* looks the round up again)
+         vote("prevote", 1, 2, {"nil": ok(4)}), vote("precommit", 1, 2, {"nil": ok(3)})]
     w["votes"] = S(V)
     w["phs"] = S([ph("A1", 0, 1), ph("A1", 1, 2)])
     w["replays"] = S([])
